@@ -114,6 +114,21 @@ fn op_kind(op: Op) -> &'static str {
     }
 }
 
+/// `Extend` through iterators of four shapes: what an `extend` fast path may (not) trust is the
+/// size hint. 0: exact hint; 1: no hint at all `(0, None)`; 2: a loose upper bound `(0, Some(n+1))`
+/// (filter); 3: a looser one `(0, Some(n+3))` (take_while). The items delivered are always `vals`.
+fn extend_with<E: Extend<i64>>(r: &mut E, vals: &[i64], shape: usize) {
+    match shape % 4 {
+        0 => r.extend(vals.iter().copied()),
+        1 => {
+            let mut it = vals.iter().copied();
+            r.extend(std::iter::from_fn(move || it.next()))
+        }
+        2 => r.extend(vals.iter().copied().chain(std::iter::once(i64::MIN)).filter(|v| *v != i64::MIN)),
+        _ => r.extend(vals.iter().copied().chain([i64::MIN; 3]).take_while(|v| *v != i64::MIN)),
+    }
+}
+
 /// Cheap per-thread counters (a Report lookup costs milliseconds under Miri); flushed into the
 /// Report by `flush_stats`.
 #[derive(Default)]
@@ -422,9 +437,10 @@ fn step_bounded<S: SliceMut<Element = i64>>(rb: &mut Option<Bounded<S>>, model: 
                 *m = v;
             }
         }
-        Op::Extend(n) => {
+        Op::Extend(code) => {
+            let (n, shape) = (code & 0xf_ffff, code >> 20);
             let vals: Vec<i64> = (0..n).map(|_| ids.next()).collect();
-            if let Err(m) = vmon::catch(|| r.extend(vals.iter().copied())) {
+            if let Err(m) = vmon::catch(|| extend_with(r, &vals, shape)) {
                 fail!("panic", "extend panicked: {}", m);
             }
             for v in vals {
@@ -617,9 +633,10 @@ fn step_fixed<S: SliceMut<Element = i64>>(rb: &mut Option<Fixed<S>>, model: &mut
                 *m = v;
             }
         }
-        Op::Extend(cnt) => {
+        Op::Extend(code) => {
+            let (cnt, shape) = (code & 0xf_ffff, code >> 20);
             let vals: Vec<i64> = (0..cnt).map(|_| ids.next()).collect();
-            if let Err(m) = vmon::catch(|| r.extend(vals.iter().copied())) {
+            if let Err(m) = vmon::catch(|| extend_with(r, &vals, shape)) {
                 fail!("panic", "extend panicked: {}", m);
             }
             for v in vals {
@@ -658,7 +675,8 @@ fn run_fixed<S: SliceMut<Element = i64>>(store: &'static str, data: S, n: usize,
                     bump!(push_after_set_first);
                 }
             }
-            Op::Extend(c) => {
+            Op::Extend(code) => {
+                let c = code & 0xf_ffff;
                 if c > 0 && (mfirst + c) / n > 0 {
                     bump!(first_wraps);
                 }
@@ -786,7 +804,9 @@ fn bounded_alphabet(cap: usize) -> Vec<Op> {
         v.extend_from_slice(&[Op::Get(i), Op::GetMut(i), Op::Idx(i), Op::IdxMut(i)]);
     }
     for k in [0, 1, cap, cap + 1, 2 * cap + 1] {
-        v.push(Op::Extend(k));
+        for shape in 0..4usize {
+            v.push(Op::Extend(k | shape << 20));
+        }
     }
     v
 }
@@ -799,7 +819,9 @@ fn fixed_alphabet(n: usize) -> Vec<Op> {
         v.extend_from_slice(&[Op::Get(i), Op::GetMut(i), Op::Idx(i), Op::IdxMut(i), Op::SetFirst(i)]);
     }
     for k in [0, 1, n, n + 1, 2 * n + 1] {
-        v.push(Op::Extend(k));
+        for shape in 0..4usize {
+            v.push(Op::Extend(k | shape << 20));
+        }
     }
     v
 }
@@ -817,7 +839,7 @@ fn random_bounded_op(rng: &mut Rng, cap: usize, len: usize) -> Op {
         88..=90 => Op::IterMut,
         91..=93 => Op::Slices,
         94..=96 => Op::SlicesMut,
-        _ => Op::Extend(rng.usize_below(cap + 3)),
+        _ => Op::Extend(rng.usize_below(cap + 3) | rng.usize_below(4) << 20),
     }
 }
 fn random_fixed_op(rng: &mut Rng, n: usize) -> Op {
@@ -833,7 +855,7 @@ fn random_fixed_op(rng: &mut Rng, n: usize) -> Op {
         87..=89 => Op::IterMut,
         90..=92 => Op::Slices,
         93..=95 => Op::SlicesMut,
-        _ => Op::Extend(rng.usize_below(n + 3)),
+        _ => Op::Extend(rng.usize_below(n + 3) | rng.usize_below(4) << 20),
     }
 }
 fn rand_index(rng: &mut Rng, cap: usize, len: usize) -> usize {
@@ -1228,6 +1250,35 @@ fn huge_probes(rep: &mut Report, seed: u64, n_cfg: usize, n_ops: usize) {
     }
 }
 
+// ------------------------------------------------------------------ iterator protocol
+/// `drain()` (the crate's own iterator type) and `iter()` from every small (cap, start, len)
+/// state: nth / fold / count / last / skip / step_by / size_hint / len against plain next().
+/// Each `drain()` instance gets its own leaked copy of the buffer (native stages only).
+fn iterator_conformance(rep: &mut Report, seed: u64, max_cap: usize, scripts: usize) {
+    let mut n = 0u64;
+    let mut ids = Ids(1 << 40);
+    for cap in 1..=max_cap {
+        for start in 0..cap {
+            for len in 0..=cap {
+                let (content, _model) = bounded_content(cap, start, len, &mut ids);
+                let mut rng = Rng::derive(seed, &[61, cap as u64, start as u64, len as u64]);
+                let cs = format!("kind=iterconf;store=vec;cap={};start={};len={};ops=I", cap, start, len);
+                let rb = Bounded::from_raw_parts(start, len, content.clone());
+                n += checks::iterconf::check_iter("bounded_iter", &cs, || rb.iter(), rep, &mut rng, scripts);
+                n += checks::iterconf::check_double_ended("bounded_iter", &cs, || rb.iter(), rep, &mut rng, scripts / 2);
+                let mk = || Box::leak(Box::new(Bounded::from_raw_parts(start, len, content.clone()))).drain();
+                n += checks::iterconf::check_iter("bounded_drain", &cs, mk, rep, &mut rng, scripts);
+                n += checks::iterconf::check_exact_size("bounded_drain", &cs, mk, rep);
+                let fx = Fixed::from_raw_parts(start, content.clone());
+                n += checks::iterconf::check_iter("fixed_iter", &cs, || fx.iter(), rep, &mut rng, scripts / 2);
+                rep.nontrivial(vmon::hash_combine(0x6974, (cap * 10_000 + start * 100 + len) as u64));
+            }
+        }
+    }
+    rep.eval(n);
+    rep.hit_n("iterator_conformance_scripts", n);
+}
+
 fn random_histories(seed: u64, stage_tag: u64, n_hist: u64, max_cap: usize, max_len: usize, threads: usize, stores: &'static [&'static str], rep: &mut Report) {
     let reps = vmon::par_for(threads, n_hist, 16, |_| Report::new("C06", "w"), |rep, h| {
         let mut rng = Rng::derive(seed, &[6, stage_tag, h]);
@@ -1289,6 +1340,11 @@ fn random_histories(seed: u64, stage_tag: u64, n_hist: u64, max_cap: usize, max_
 
 fn replay(case: &str, rep: &mut Report) {
     let m = vmon::cli::parse_case(case);
+    if m["kind"] == "iterconf" {
+        eprintln!("CASE {}", case);
+        iterator_conformance(rep, 0, m["cap"].parse::<usize>().unwrap().max(1), 200);
+        return;
+    }
     if m["kind"] == "huge" {
         eprintln!("CASE {}", case);
         huge_probe(rep, m["seed"].parse().unwrap(), m["r"].parse().unwrap(), m["cfg"].parse().unwrap(), m["n"].parse().unwrap());
@@ -1333,6 +1389,8 @@ fn main() {
             rep.exhaustive(format!("Bounded: every (cap 1..={}, start, len) x every operation of the alphabet (indices 0..cap+2 and usize::MAX, usize::MAX-1, isize::MAX) x 4 storage kinds; Fixed: every (N 1..={}, first) x every operation", max_cap, max_cap));
             check_constructors(&mut rep);
             huge_probes(&mut rep, cli.seed, cli.t(7, 42), cli.t(300, 3000));
+            rep.oblige("iterator_conformance_scripts", 1);
+            iterator_conformance(&mut rep, cli.seed, cli.t(6, 9), cli.t(24, 120));
             random_histories(cli.seed, 0, cli.t(20_000, 1_000_000), cli.t(64, 1000), cli.t(200, 600), cli.threads, &STORES, &mut rep);
         }
         "miri" => {
